@@ -88,6 +88,12 @@ func getParentTagsDirective(d directive.Directive) *directive.Directive {
 	return nil
 }
 
+// CheckTagsDirective checks that the Tags directive is correct and all its tags are defined.
+func (c *Catalog) CheckTagsDirective(d *directive.Directive) *jerr.JApiError {
+	_, je := c.tagsFromTagsDirective(d)
+	return je
+}
+
 func (c *Catalog) tagsFromTagsDirective(d *directive.Directive) ([]*Tag, *jerr.JApiError) {
 	if je := checkTagsDirective(d); je != nil {
 		return nil, je
